@@ -1,30 +1,53 @@
 """C19 - shared-memory topologies: length suffices, adopted copy is equal and read-only.
-Model: spec/Shmem.tla (expectations), spec/MC_Shmem.tla (bounded protocol model: master / writer / adopter processes, file images,
-address ranges); binding: spec/TraceShmem.tla, harness/hwv_shmem.c (write and adopt in separate forked processes, PROT_NONE
-reservation around the target range, file bytes outside the segment digested)."""
+Model: spec/Shmem.tla (expectations), spec/MC_Shmem.tla (bounded protocol model: configuration of the original topology = topology
+flag word x source x stores added by the application x stale caches; master / writer / adopter processes, file images at near and far
+(2 GiB, 4 GiB) offsets, address ranges); binding: spec/TraceShmem.tla, harness/hwv_shmem.c (write and adopt in separate forked
+processes, PROT_NONE reservation around the target range, file bytes outside the segment digested, sparse file)."""
 import os, random, json
 import vlib, corpus
 
-# ---- original topologies: (name, INCLUDE_DISALLOWED, behaviour lines up to the first snapshot) ----
-TOPOS = [
-    ("stores+disallowed", True, [
-        "load 1 0 synthetic node:2 core:2 pu:2",
-        "prep dist 5 14 2 0", "prep dist 6 4 4 0",
-        "prep memattr 2 2 0", "prep memattr 5 2 1", "prep memattr 6 2 2", "prep memvalue Bandwidth 1 500",
-        "prep cpukind 0-3 1 CoreType big", "prep cpukind 4-7 0 CoreType small",
-        "prep info hwvinfo hello", "prep tinfo hwvtinfo world", "prep subtype MySub", "prep userdata"]),
-    ("plain", False, [
-        "load 0 0 synthetic pack:2 core:2 pu:2", "prep info hwvroot r"]),
-    ("restricted-stale+disallowed", True, [
-        "load 1 0 synthetic [numa] pack:2 [numa] core:2 pu:2",
-        "prep dist 5 4 8 0", "prep dist 9 3 4 0", "prep memattr 5 3 1", "prep cpukind 0-1 -1 FrequencyMaxMHz 3000", "prep cpukind 2-7 -1 FrequencyMaxMHz 2000",
-        "prep allow 4 0-5 -", "prep info hwvroot r",
-        "prep restrict 0 0-5"]),                      # caches of distances / memattrs are stale when the topology is measured and written
-    ("keepall-misc-group", False, [
-        "load 0 1 synthetic pack:2 numa:2 l2:1 l1i:1 l1d:1 core:1 pu:2",
-        "prep misc hwvmisc", "prep group 0-3", "prep info hwvroot r", "prep memvalue Latency 0 30", "prep memattr 1 4 0", "prep dist 5 14 4 1",
-        "prep restrict 8 0-2", "prep refresh", "prep userdata"]),
-]
+# ---- original topologies.  The model (MC_Shmem.tla, OrigSpace) says how the original is loaded (from the description or through XML,
+# topology flag word), which stores the application adds after load and whether a restrict leaves their caches stale; a family says
+# with which description and which lines (the restrict of a family removes objects that its stores name) ----
+FAMILIES = {
+    "numa2": dict(desc="node:2 core:2 pu:2", preset=0, pre=[],
+                  dist=["prep dist 5 14 2 0", "prep dist 6 4 4 0"],
+                  memattr=["prep memattr 2 2 0", "prep memattr 5 2 1", "prep memattr 6 2 2", "prep memvalue Bandwidth 1 500"],
+                  cpukind=["prep cpukind 0-3 1 CoreType big", "prep cpukind 4-7 0 CoreType small"],
+                  deco=["prep info hwvinfo hello", "prep tinfo hwvtinfo world", "prep subtype MySub", "prep userdata"],
+                  restrict="prep restrict 1 0-2", tail=[]),
+    "pack2": dict(desc="pack:2 core:2 pu:2", preset=0, pre=[],
+                  dist=["prep dist 5 4 8 0"], memattr=["prep memattr 2 1 0"], cpukind=["prep cpukind 0-3 1 CoreType big"],
+                  deco=["prep info hwvroot r"], restrict="prep restrict 0 0-5", tail=[]),
+    "numa3": dict(desc="[numa] pack:2 [numa] core:2 pu:2", preset=0, pre=[],
+                  dist=["prep dist 5 4 8 0", "prep dist 9 3 4 0"], memattr=["prep memattr 5 3 1"],
+                  cpukind=["prep cpukind 0-1 -1 FrequencyMaxMHz 3000", "prep cpukind 2-7 -1 FrequencyMaxMHz 2000"],
+                  deco=["prep allow 4 0-5 -", "prep info hwvroot r"], restrict="prep restrict 0 0-5", tail=[]),
+    "keepall": dict(desc="pack:2 numa:2 l2:1 l1i:1 l1d:1 core:1 pu:2", preset=1, pre=["prep misc hwvmisc", "prep group 0-3", "prep info hwvroot r"],
+                    dist=["prep dist 5 14 4 1"], memattr=["prep memvalue Latency 0 30", "prep memattr 1 4 0"], cpukind=["prep cpukind 0-1 2 CoreType k"],
+                    deco=["prep userdata"], restrict="prep restrict 8 0-2", tail=[]),
+}
+# the four hand-made originals the check started with, as points of the space: (family, source, flag word, dist, memattr, cpukind, staleness)
+LEGACY = [("numa2", "syn", 1, 1, 1, 1, "none"), ("pack2", "syn", 0, 0, 0, 0, "none"), ("numa3", "syn", 1, 1, 1, 1, "restrict"), ("keepall", "syn", 0, 1, 1, 0, "refreshed")]
+
+
+def orig_lines(o):
+    """the configuration of the original (first entry of a history) -> behaviour lines up to the first snapshot"""
+    fam, src, flags, d, m, c, stale = o
+    F = FAMILIES[fam]
+    if src == "xml":
+        # the XML source carries all three stores; the flag word decides what the import keeps
+        lines = ["load 0 %d synthetic %s" % (F["preset"], F["desc"])] + F["dist"] + F["memattr"] + F["cpukind"] + ["reload %d %d" % (flags, F["preset"])]
+    else:
+        lines = ["load %d %d synthetic %s" % (flags, F["preset"], F["desc"])]
+    lines += F["pre"] + (F["dist"] if d else []) + (F["memattr"] if m else []) + (F["cpukind"] if c else []) + F["deco"]
+    if stale != "none":
+        lines.append(F["restrict"])        # caches of distances / memattrs are stale when the topology is measured and written
+    if stale == "refreshed":
+        lines.append("prep refresh")
+    return lines + F["tail"]
+
+
 MODS = ["prep info hwvmod v%d", "prep cpukind 0 3 Mod m%d", "prep memattr 2 1 0 # %d", "prep misc mod%d"]
 
 CALLS_MODIFY = [
@@ -39,9 +62,13 @@ CALLS_MODIFY = [
 ]
 CALLS_CONFIG = [("set_flags", 0, 0, "", ""), ("set_flags", 1, 0, "", ""), ("set_type_filter", 19, 0, "", ""), ("set_synthetic", 0, 0, "", ""), ("load", 0, 0, "", "")]
 CALLS_CONSULT = [("observe", 0, 0, "", ""), ("export_xml", 0, 0, "", ""), ("dup", 0, 0, "", ""), ("dup", 1, 0, "", ""), ("get_length", 0, 0, "", ""), ("get_length", 1, 0, "", ""),
-                 ("check", 0, 0, "", ""), ("set_userdata", 77, 0, "", ""), ("bind_get", 1, 0, "", ""), ("abi_check", 0, 0, "", ""), ("refresh", 0, 0, "", "")]
+                 ("check", 0, 0, "", ""), ("set_userdata", 77, 0, "", ""), ("bind_get", 1, 0, "", ""), ("abi_check", 0, 0, "", ""), ("refresh", 0, 0, "", ""),
+                 ("reshare", 0, 0, "", "")]
 CALLS_SPECIAL = [("allow", 1, 0, "-", "-"), ("allow", 4, 0, "0-1", "-"), ("allow", 4, 0, "-", "0"), ("allow", 4, 0, "2-3", "0"), ("allow", 4, 0, "100", "-"),
                  ("allow", 2, 0, "-", "-"), ("allow", 1, 0, "0", "-"), ("allow", 3, 0, "-", "-"), ("allow", 4, 0, "-", "-"), ("tinfo_add", 0, 0, "hwvt", "1")]
+CALLS_STORES = [("observe", 0, 0, "", ""), ("export_xml", 0, 0, "", ""), ("dup", 1, 0, "", ""), ("reshare", 0, 0, "", ""), ("refresh", 0, 0, "", ""), ("check", 0, 0, "", ""),
+                ("dist_release_remove", 0, 0, "", ""), ("dist_remove", 0, 0, "", ""), ("memattr_set_value", 2, 1, "", ""), ("cpukinds_register", 1, 0, "0-1", ""),
+                ("allow", 1, 0, "-", "-"), ("diff_apply", 0, 0, "", "")]
 ALL_CALLS = CALLS_MODIFY + CALLS_CONFIG + CALLS_CONSULT + CALLS_SPECIAL
 ALL_ADOPT_DEVS = ["none", "doff+", "doff-", "dorem", "eof", "slot", "shift+", "shift-", "arem", "dlen+", "dlen-", "lrem", "flags"]
 ALL_WRITE_DEVS = ["none", "orem", "arem", "dlen", "lrem", "busy", "flags"]
@@ -60,15 +87,16 @@ def tla_calls(cs):
     return "{" + ", ".join('<<"%s", %d, %d, "%s", "%s">>' % c for c in cs) + "}"
 
 
-BASE = dict(Offsets=[0, 1, 3], Slots=[0], WriteDevs=["none"], AdoptDevs=["none"], PunchModes=[1], PatchFields=[], CallSet=[("observe", 0, 0, "", "")],
+BASE = dict(Origs=LEGACY, Bases=[0, 1], Offsets=[0, 1, 3], Slots=[0], WriteDevs=["none"], AdoptDevs=["none"], PunchModes=[1], PatchFields=[], CallSet=[("observe", 0, 0, "", "")],
             MaxWrites=1, MaxMods=0, MaxPatches=0, MaxAdopters=1, MaxFail=0, MaxOK=1, MaxCalls=0, MaxDestroys=1)
 
 
-def model_cfgs(thorough):
+def model_cfgs(thorough, seed=0):
     """focused configurations of MC_Shmem: each explores one dimension exhaustively around the nominal protocol"""
     c = []
     # every write variant at every offset, a failed write may be followed by a second one; then the nominal adoption
-    c.append(("write", dict(BASE, WriteDevs=ALL_WRITE_DEVS, MaxWrites=2, MaxCalls=1, MaxFail=1)))
+    # (also at file offsets of 2 GiB and 4 GiB + k pages: the file is sparse)
+    c.append(("write", dict(BASE, Bases=[0, 1, 2, 3] if thorough else [0, 1, 2], WriteDevs=ALL_WRITE_DEVS, MaxWrites=2, MaxCalls=1, MaxFail=1)))
     # every adopt variant x preparation of the range, up to 2 failures, re-adoption after destroy
     c.append(("adopt", dict(BASE, AdoptDevs=ALL_ADOPT_DEVS, PunchModes=[0, 1, 2], MaxFail=2, MaxOK=2, MaxCalls=1 if thorough else 0, MaxDestroys=2 if thorough else 1)))
     # nothing written at all, and a damaged header / ABI word, repaired again, seen by up to two adopter processes
@@ -77,20 +105,31 @@ def model_cfgs(thorough):
     # the whole alphabet of public calls on the adopted topology, up to 3 in a row
     c.append(("calls", dict(BASE, Offsets=[1], CallSet=ALL_CALLS, MaxCalls=3, MaxOK=1, MaxDestroys=1)))
     # two images (the original modified in between) at two addresses, two adopted topologies alive at once
-    c.append(("two", dict(BASE, Offsets=[0, 1] if not thorough else [0, 1, 3], Slots=[0, 1], MaxWrites=2, MaxMods=1, AdoptDevs=["none", "slot"], PunchModes=[0, 1], MaxFail=1, MaxOK=3,
+    # (the largest graph: the quick tier runs it from one hand-made original per INCLUDE_DISALLOWED value, chosen by the seed)
+    c.append(("two", dict(BASE, Origs=LEGACY if thorough else [LEGACY[(0, 2)[seed % 2]], LEGACY[(1, 3)[seed % 2]]], Offsets=[0, 1] if not thorough else [0, 1, 3], Slots=[0, 1], MaxWrites=2, MaxMods=1, AdoptDevs=["none", "slot"], PunchModes=[0, 1], MaxFail=1, MaxOK=3,
                           MaxCalls=1, MaxDestroys=2, CallSet=[("allow", 4, 0, "0-1", "-"), ("restrict", 0, 0, "0-1", ""), ("observe", 0, 0, "", "")])))
+    # the original topology: topology flag words x source (description / through XML) x stores added by the application after load x
+    # stale caches left by a restrict, around the nominal protocol with one call that consults or tries to modify a store
+    c.append(("orig", dict(BASE, Origs='OrigSpace(%s, {"syn", "xml"}, %s)' % (tla_str_set(sorted(FAMILIES) if thorough else ["numa2"]), "AllFlagWords" if thorough else "FewFlagWords"),
+                           Bases=[0], Offsets=[1], CallSet=CALLS_STORES, MaxCalls=1, MaxOK=1, MaxDestroys=1)))
     return c
 
 
+def tla_origs(origs, disallowed=None):
+    if isinstance(origs, str):
+        return origs
+    return "{" + ", ".join('<<"%s", "%s", %d, %d, %d, %d, "%s">>' % o for o in origs if disallowed is None or bool(o[2] & 1) == disallowed) + "}"
+
+
 def gen_module(k, disallowed):
-    return ("---- MODULE MC_Shmem_gen ----\nEXTENDS MC_Shmem\nGOffsets == %s\nGSlots == %s\nGWriteDevs == %s\nGAdoptDevs == %s\nGPunch == %s\nGFields == %s\nGCalls == %s\n====\n"
-            % (tla_int_set(k["Offsets"]), tla_int_set(k["Slots"]), tla_str_set(k["WriteDevs"]), tla_str_set(k["AdoptDevs"]), tla_int_set(k["PunchModes"]),
+    return ("---- MODULE MC_Shmem_gen ----\nEXTENDS MC_Shmem\nGOrigs == %s\nGBases == %s\nGOffsets == %s\nGSlots == %s\nGWriteDevs == %s\nGAdoptDevs == %s\nGPunch == %s\nGFields == %s\nGCalls == %s\n====\n"
+            % (tla_origs(k["Origs"], disallowed), tla_int_set(k["Bases"]), tla_int_set(k["Offsets"]), tla_int_set(k["Slots"]), tla_str_set(k["WriteDevs"]), tla_str_set(k["AdoptDevs"]), tla_int_set(k["PunchModes"]),
                tla_str_set(k["PatchFields"]), tla_calls(k["CallSet"])))
 
 
 def gen_cfg(k, disallowed, nstripes, stripe, simlen, bfs):
-    s = ("SPECIFICATION Spec\nCONSTANTS\n  Disallowed = %s\n  Offsets <- GOffsets\n  Slots <- GSlots\n  WriteDevs <- GWriteDevs\n  AdoptDevs <- GAdoptDevs\n  PunchModes <- GPunch\n"
-         "  PatchFields <- GFields\n  CallSet <- GCalls\n" % ("TRUE" if disallowed else "FALSE"))
+    s = ("SPECIFICATION Spec\nCONSTANTS\n  Origs <- GOrigs\n  Bases <- GBases\n  Offsets <- GOffsets\n  Slots <- GSlots\n  WriteDevs <- GWriteDevs\n  AdoptDevs <- GAdoptDevs\n  PunchModes <- GPunch\n"
+         "  PatchFields <- GFields\n  CallSet <- GCalls\n")
     for n in ("MaxWrites", "MaxMods", "MaxPatches", "MaxAdopters", "MaxFail", "MaxOK", "MaxCalls", "MaxDestroys"):
         s += "  %s = %d\n" % (n, k[n])
     s += "  NStripes = %d\n  Stripe = %d\n  SimLen = %d\nVIEW StateView\nCHECK_DEADLOCK FALSE\n" % (nstripes, stripe, simlen)
@@ -104,14 +143,15 @@ REM = 8           # a model remainder of 1 is 8 bytes
 EOF_PAGES = 100000
 
 
-def render(hist, topo, modseed=0):
+def render(hist, modseed=0):
     """TLC history -> behaviour text"""
-    name, dis, head = topo
-    lines = ["reset"] + head + ["snapshot", "get_length 0"]
+    lines = ["reset"]
     nmod = 0
     for e in hist:
         op = e[0]
-        if op == "write":
+        if op == "orig":
+            lines += orig_lines(tuple(e[1:])) + ["snapshot", "get_length 0"]
+        elif op == "write":
             _, obase, opg, orem, slot, shift, arem, dlen, lrem, punch, flags, tail = e
             lines.append("write %d %d %d %d %d %d %d %d %d %d %d" % (obase, opg, orem * REM, slot, shift, arem * REM, dlen, lrem * REM, punch, flags, tail))
         elif op == "modify":
@@ -137,6 +177,11 @@ def render(hist, topo, modseed=0):
     return "\n".join(lines) + "\n"
 
 
+# topology flag bits that the corpus inputs are loaded with besides INCLUDE_DISALLOWED (NO_DISTANCES, NO_MEMATTRS, NO_CPUKINDS, IMPORT_SUPPORT:
+# what the XML carries is ignored / imported), cycling with a period coprime to the other choices
+CORPUS_FLAGS = [0, 0, 128, 0, 256, 0, 512, 8, 896]
+
+
 def corpus_behaviours(thorough, rng):
     """every bundled XML input and synthetic family: written and adopted once (all types kept), observed, destroyed, adopted again"""
     behs = []
@@ -145,9 +190,9 @@ def corpus_behaviours(thorough, rng):
         if s["kind"] == "xml":
             if not thorough and os.path.getsize(s["path"]) > 120000 and n % 2:
                 continue
-            load = "load %d 1 xml %s" % (1 if n % 2 == 0 else 0, s["path"])
+            load = "load %d 1 xml %s" % ((1 if n % 2 == 0 else 0) + CORPUS_FLAGS[n % len(CORPUS_FLAGS)], s["path"])
         else:
-            load = "load %d 1 synthetic %s" % (1 if n % 2 == 0 else 0, s["desc"])
+            load = "load %d 1 synthetic %s" % ((1 if n % 2 == 0 else 0) + CORPUS_FLAGS[n % len(CORPUS_FLAGS)], s["desc"])
         off = [0, 1, 3][n % 3]
         lines = ["reset", load, "prep userdata", "prep info hwvroot r", "snapshot", "get_length 0", "write 0 %d 0 %d 0 0 0 0 1 0 %d" % (off, n % 2, 2 if n % 4 == 0 else 0), "adopter",
                  "adopt 0 0 0 0 %d 0 0 0 0 1 0" % (n % 2), "call 0 check 0 0", "call 0 restrict 0 0 0", "call 0 diff_apply 0 0", "call 0 refresh 0 0", "call 0 allow 1 0 - -", "call 0 dup 1 0",
@@ -201,47 +246,65 @@ def run(ctx, replay=None):
     rng = random.Random(ctx.seed)
     behs = []
     per_cfg = {}
-    budget = {"write": 4000, "adopt": 6000, "patch": 3000, "calls": 9000, "two": 6000} if thorough else {"write": 250, "adopt": 400, "patch": 200, "calls": 700, "two": 300}
+    budget = ({"write": 4000, "adopt": 6000, "patch": 3000, "calls": 9000, "two": 6000, "orig": 6200} if thorough
+              else {"write": 300, "adopt": 400, "patch": 200, "calls": 700, "two": 300, "orig": 450})
+    # the quick tier only prints a stripe of the edges of the two largest graphs (it samples a few hundred of them anyway)
+    stripes = {"orig": 4} if thorough else {"write": 2, "two": 2}
     # long random walks over the whole alphabet
-    simk = dict(BASE, Slots=[0, 1], WriteDevs=ALL_WRITE_DEVS, AdoptDevs=ALL_ADOPT_DEVS, PunchModes=[0, 1, 2], PatchFields=ALL_FIELDS, CallSet=ALL_CALLS,
+    simk = dict(BASE, Origs='OrigSpace(%s, {"syn", "xml"}, AllFlagWords)' % tla_str_set(sorted(FAMILIES)), Bases=[0, 1, 2, 3], Slots=[0, 1], WriteDevs=ALL_WRITE_DEVS, AdoptDevs=ALL_ADOPT_DEVS, PunchModes=[0, 1, 2], PatchFields=ALL_FIELDS, CallSet=ALL_CALLS,
                 MaxWrites=3, MaxMods=2, MaxPatches=4, MaxAdopters=40, MaxFail=40, MaxOK=40, MaxCalls=60, MaxDestroys=40)
     simlen = 30 if thorough else 24
     jobs = []
-    for cname, k in model_cfgs(thorough):
-        for dis in (True, False):
+    for cname, k in model_cfgs(thorough, ctx.seed):
+        if isinstance(k["Origs"], str):
+            jobs.append(("bfs", cname, None, k))          # the configuration ranges over the originals itself
+            continue
+        for dis in (True, False):                         # the hand-made originals loaded with / without INCLUDE_DISALLOWED
             if cname in ("write", "patch") and not dis and not thorough:
-                continue        # Disallowed only matters for calls
+                continue        # INCLUDE_DISALLOWED only matters for calls
             jobs.append(("bfs", cname, dis, k))
-    for dis in (True, False):
-        jobs.append(("sim", "sim", dis, simk))
+    jobs.append(("sim", "sim", None, simk))
 
     def tlc_job(j):
         kind, cname, dis, k = j
         gen = [("MC_Shmem_gen.tla", gen_module(k, dis))]
         if kind == "bfs":
-            return ctx.tlc_mc("MC_Shmem_gen", gen_cfg(k, dis, 1, 0, 0, True), tag="bfs_%s_%d" % (cname, dis), workers=3, extra_modules=gen, timeout=2400, heap="4g")
-        return ctx.tlc_mc("MC_Shmem_gen", gen_cfg(k, dis, 1, 0, simlen, False), tag="sim_%d" % dis, workers=2, extra_modules=gen,
-                          simulate="num=%d" % (300 if thorough else 30), depth=simlen + 2, timeout=900, heap="4g")
+            ns = stripes.get(cname, 1)
+            return ctx.tlc_mc("MC_Shmem_gen", gen_cfg(k, dis, ns, ctx.seed % ns, 0, True), tag="bfs_%s_%s" % (cname, {True: "1", False: "0", None: "x"}[dis]), workers=3, extra_modules=gen, timeout=2400, heap="4g")
+        return ctx.tlc_mc("MC_Shmem_gen", gen_cfg(k, dis, 1, 0, simlen, False), tag="sim", workers=2, extra_modules=gen,
+                          simulate="num=%d" % (600 if thorough else 60), depth=simlen + 2, timeout=900, heap="4g")
     import concurrent.futures as cf
     with cf.ThreadPoolExecutor(max_workers=4) as ex:
         results = list(ex.map(tlc_job, jobs))
+    disname = {True: "dis", False: "nodis", None: "all"}
     for (kind, cname, dis, k), (out, st) in zip(jobs, results):
-        topos = [t for t in TOPOS if t[1] == dis]
         if kind == "bfs":
             if st["error"] or st["rc"] != 0:
                 raise vlib.Infra("model check of MC_Shmem (%s) failed (model-level, not a violation): %s\n%s" % (cname, st["error"], out[-2500:]))
             hists = list(vlib.tlc_printed(out, "EDGE"))
-            per_cfg["%s/%s" % (cname, "dis" if dis else "nodis")] = len(hists)
-            keep = budget[cname] // 2 if cname not in ("write", "patch") or thorough else budget[cname]
-            if len(hists) > keep:
+            per_cfg["%s/%s" % (cname, disname[dis])] = len(hists)
+            keep = budget[cname] // 2 if dis is not None and (cname not in ("write", "patch") or thorough) else budget[cname]
+            if len(hists) > keep and dis is None:
+                # every original gets its share: the longest histories of each (they contain the write, the adoption and a call), seeded choice among them
+                groups = {}
+                for h in hists:
+                    groups.setdefault(tuple(h[0]), []).append(h)
+                share = max(1, keep // len(groups))
+                hists = []
+                for key in sorted(groups):
+                    g = groups[key]
+                    rng.shuffle(g)
+                    g.sort(key=len, reverse=True)
+                    hists += g[:share]
+            elif len(hists) > keep:
                 hists = rng.sample(hists, keep)          # seeded sample of the state-graph edges
         else:
             if st["error"]:
                 raise vlib.Infra("simulation of MC_Shmem failed: %s\n%s" % (st["error"], out[-2500:]))
             hists = list(vlib.tlc_printed(out, "SIM"))
-            per_cfg["sim/%s" % ("dis" if dis else "nodis")] = len(hists)
+            per_cfg["sim/all"] = len(hists)
         for n, h in enumerate(hists):
-            behs.append(render(h, topos[n % len(topos)], n))
+            behs.append(render(h, n))
     nmodel = len(behs)
     behs += corpus_behaviours(thorough, rng)
     ncorpus = len(behs) - nmodel
@@ -255,9 +318,12 @@ def run(ctx, replay=None):
     rejs = ctx.validate("TraceShmem", tf, nshards=32 if thorough else 16, timeout=3000)
     ctx.handle_rejections(rejs, behs, replay_fn)
     return ctx.finish(
-        rule="behaviours = edges of the state graph of MC_Shmem.tla explored exhaustively in five focused configurations (all write variants x 3 page-aligned offsets; all 13 adopt "
+        rule="behaviours = edges of the state graph of MC_Shmem.tla explored exhaustively in six focused configurations (all write variants x 3 page-aligned offsets from the file start, "
+             "the previous image, 2 GiB and 4 GiB in a sparse file; all 13 adopt "
              "deviations x 3 preparations of the address range with up to 2 failures and re-adoption after destroy; damaged/repaired header and ABI bytes seen by two adopter processes; "
-             "the whole alphabet of %d public calls on the adopted topology, 3 in a row; two images at two addresses with two adopted topologies alive), seeded samples of them in the quick "
+             "the whole alphabet of %d public calls on the adopted topology, 3 in a row; two images at two addresses with two adopted topologies alive; the original topology ranging over topology flag words (INCLUDE_DISALLOWED, IMPORT_SUPPORT, NO_DISTANCES, "
+             "NO_MEMATTRS, NO_CPUKINDS) x loaded from a description or through XML x distances / memory attribute values / CPU kinds added by the application after load x stale caches "
+             "left by a restrict, refreshed or not), seeded samples of them in the quick "
              "tier, plus TLC-simulated long walks over everything, plus every bundled XML input and synthetic family written and adopted once, plus a sweep of the needed size in 8-byte "
              "steps across one page (so that the used area ends right below a page boundary in some behaviour). Each is replayed on the rebuilt library "
              "(write and adopt in separate forked processes, PROT_NONE pages around the target range) and every event validated by TLC against TraceShmem.tla. "
